@@ -1,7 +1,87 @@
 """Deductive part of C16: vec / unvec index contracts and mutual inverse (E1-array), tensor power and folds (E1-integer)."""
 
 
+TERM_PREDS = ["is_hermitian", "is_symmetric", "is_idempotent", "is_identity", "is_normal", "is_projection", "is_unitary", "is_anti_hermitian", "is_commuting", "is_density"]
+TERM_MUTS = [
+    ("is_hermitian", "np.allclose(mat, mat.conj().T, rtol=rtol, atol=atol)", "np.allclose(mat, mat.conj().T, atol, rtol)"),
+    ("is_identity", "np.allclose(mat, id_mat, rtol=rtol, atol=atol)", "np.allclose(mat, id_mat, rtol=rtol)"),
+    ("is_unitary", "u_uc_mat = mat @ mat.conj().T", "u_uc_mat = mat.conj().T @ mat"),
+    ("is_symmetric", "np.allclose(mat, mat.T, rtol=rtol, atol=atol)", "np.allclose(mat, mat.conj().T, rtol=rtol, atol=atol)"),
+    ("is_normal", "mat.conj().T @ mat, rtol=rtol, atol=atol", "mat.conj().T @ mat, rtol=rtol"),
+    ("is_anti_hermitian", "is_hermitian(mat * 1j, rtol, atol)", "is_hermitian(mat * 1j, atol, rtol)"),
+]
+
+
+def tol_matrix(p):
+    """bounded replay of the matrix-predicate term contracts: rtol / atol mean what np.allclose documents -- a deviation eps at an entry whose
+    reference value has modulus m is accepted iff eps <= atol + rtol * m (ground truth by construction, margins of a factor >= 3)"""
+    import numpy as np
+
+    import toqito.matrix_props as mp
+    from vt.contract import Violation
+
+    def judge(name, X, eps, m, rtol, atol):
+        bound = (1e-8 + 1e-5 * m) if rtol is None else (atol + rtol * m)
+        if bound / 3 < eps < bound * 3:
+            return
+        exp = eps <= bound
+        f = getattr(mp, name)
+        kw = {} if rtol is None else dict(rtol=rtol, atol=atol)
+        got = bool(f(X, **kw))
+        if got != exp:
+            raise Violation("%s(defect %g at a reference entry of modulus %g, rtol=%s, atol=%s) = %s; np.allclose semantics give %s" % (name, eps, m, rtol, atol, got, exp))
+        if rtol is not None:
+            got = bool(f(X, rtol, atol))
+            if got != exp:
+                raise Violation("%s with positional tolerances (%g, %g) = %s, expected %s" % (name, rtol, atol, got, exp))
+
+    grid = [(1e-4, 0.0, 1e-3), (1e-4, 1e-3, 1e-9), (1e-4, 1e-6, 1e-9), (1e-7, None, None), (1e-3, None, None), (1e-2, 0.1, 1e-6), (1e-2, 1e-6, 0.1)]
+    fn = p.get("fn")
+    for eps, rtol, atol in grid:
+        if fn in (None, "is_hermitian", "is_symmetric"):
+            for name in ("is_hermitian", "is_symmetric"):
+                X = np.array([[2.0, 1.0 + eps], [1.0, 3.0]])
+                judge(name, X, eps, 1.0, rtol, atol)
+        if fn in (None, "is_anti_hermitian"):
+            X = np.array([[0.0, 1.0 + eps], [-1.0, 0.0]])
+            judge("is_anti_hermitian", X, eps, 1.0, rtol, atol)
+        if fn in (None, "is_identity"):
+            X = np.eye(3)
+            X[0, 2] = eps
+            judge("is_identity", X, eps, 0.0, rtol, atol)
+            Y = np.eye(3)
+            Y[1, 1] = 1.0 + eps
+            judge("is_identity", Y, eps, 1.0, rtol, atol)
+        if fn in (None, "is_unitary"):
+            U = np.eye(2) * np.sqrt(1.0 + eps)
+            judge("is_unitary", U, eps, 1.0, rtol, atol)
+        if fn in (None, "is_idempotent", "is_projection"):
+            P = np.diag([1.0, 0.0]) + np.array([[0.0, 0.0], [0.0, 0.0]])
+            Q = np.diag([1.0 + eps, 0.0])  # Q^2 - Q = diag(eps + eps^2, 0) at a reference entry of modulus ~1
+            judge("is_idempotent", Q, eps + eps * eps, (1.0 + eps) ** 2, rtol, atol)
+            judge("is_projection", Q, eps + eps * eps, 1.0 + eps, rtol, atol)
+        if fn in (None, "is_normal"):
+            N = np.array([[1.0, eps], [0.0, 1.0]])  # N N^T - N^T N = [[eps^2, 0], [0, -eps^2]] at reference entries of modulus ~1
+            judge("is_normal", N, eps * eps, 1.0, rtol, atol)
+
+
+tol_matrix.function = "matrix_props tolerances"
+EXTRA_CLAUSES = {"tol.matrix": tol_matrix}
+
+
+def extra_cases(tier, seed):
+    return [dict(clause="tol.matrix", params=dict(fn=fn), input_class="tolerances/%s" % fn, nontrivial=True) for fn in ("is_hermitian", "is_anti_hermitian", "is_identity", "is_unitary", "is_idempotent", "is_normal")]
+
+
 def prove(tier, seed):
+    from vt.pyvc.termproofs import merge, prove_terms
+
+    a = prove_index_and_tensor(tier, seed)
+    b = prove_terms(TERM_PREDS, TERM_MUTS, tier, "c16t", replay_clause="tol.matrix")
+    return merge(a, b)
+
+
+def prove_index_and_tensor(tier, seed):
     import z3
 
     from contracts import index_layer as IL
